@@ -84,15 +84,26 @@ def refSkipWhileIdx (p : α → Nat → Except Err Bool) : Nat → List α → E
     | .error er => [.error er]
     | .ok b => if b then refSkipWhileIdx p (i + 1) xs e else outSeq (x :: xs) e
 
+/-- `any(cmp(a, k) for a in seen)`, evaluated left to right, stopping at the first raise -/
+def anyMatch (cmp : κ → κ → Except Err Bool) (k : κ) : List κ → Except Err Bool
+  | [] => .ok false
+  | a :: rest =>
+    match cmp a k with
+    | .error e => .error e
+    | .ok true => .ok true
+    | .ok false => anyMatch cmp k rest
+
 /-- keep `x` iff no earlier *kept* key matches its key under the comparer (`seen` = kept keys) -/
-def refDistinct (key : α → Except Err κ) (cmp : κ → κ → Bool) : List κ → List α → End → List (Notif α)
+def refDistinct (key : α → Except Err κ) (cmp : κ → κ → Except Err Bool) : List κ → List α → End → List (Notif α)
   | _, [], e => e.toNotifs
   | seen, x :: xs, e =>
     match key x with
     | .error er => [.error er]
     | .ok k =>
-      if seen.any (fun a => cmp a k) then refDistinct key cmp seen xs e
-      else .next x :: refDistinct key cmp (seen ++ [k]) xs e
+      match anyMatch cmp k seen with
+      | .error er => [.error er]
+      | .ok true => refDistinct key cmp seen xs e
+      | .ok false => .next x :: refDistinct key cmp (seen ++ [k]) xs e
 
 /-- keep `x` iff its key differs (under the comparer) from the key of the last kept element -/
 def refDUC (key : α → Except Err κ) (cmp : κ → κ → Except Err Bool) : Option κ → List α → End → List (Notif α)
